@@ -44,6 +44,11 @@ pub struct Cfg {
     /// communicate through user-space state: router, async routing thread)
     #[serde(default)]
     pub post_points: bool,
+    /// directed mode (E3, model subset-of impl): the i-th successful packet transmission / reception
+    /// must be performed by task directive[i]; that task runs alone until it has done it. After
+    /// the directive is exhausted the default schedule applies.
+    #[serde(default)]
+    pub directive: Vec<u8>,
 }
 
 pub static ACTIVE: AtomicBool = AtomicBool::new(false);
@@ -95,6 +100,9 @@ pub struct TraceEntry {
     pub att: Vec<(u64, u8)>,
     /// first 8 payload bytes after the header (tag), for model conformance
     pub tag: u64,
+    /// payload bytes 8..16
+    #[serde(default)]
+    pub tag2: u64,
 }
 
 #[derive(Clone, Debug, Serialize, Deserialize)]
@@ -369,6 +377,10 @@ fn lookup(fd: c_int) -> Option<FdInfo> {
 }
 
 fn trace_push(call: &str, fd: c_int, len: i64, res: i64, att: Vec<(u64, u8)>, tag: u64) {
+    trace_push2(call, fd, len, res, att, tag, 0)
+}
+
+fn trace_push2(call: &str, fd: c_int, len: i64, res: i64, att: Vec<(u64, u8)>, tag: u64, tag2: u64) {
     if !TRACE.load(Ordering::Relaxed) {
         return;
     }
@@ -384,6 +396,7 @@ fn trace_push(call: &str, fd: c_int, len: i64, res: i64, att: Vec<(u64, u8)>, ta
             res,
             att,
             tag,
+            tag2,
         })
     });
 }
@@ -420,6 +433,16 @@ unsafe fn iov_total(msg: *const msghdr) -> usize {
         t += (*(*msg).msg_iov.add(i)).iov_len;
     }
     t
+}
+
+unsafe fn iov_tag2(msg: *const msghdr) -> u64 {
+    if (*msg).msg_iovlen >= 2 {
+        let v = *(*msg).msg_iov.add(1);
+        if v.iov_len >= 16 {
+            return std::ptr::read_unaligned((v.iov_base as *const u8).add(8) as *const u64);
+        }
+    }
+    0
 }
 
 unsafe fn iov_tag(msg: *const msghdr) -> u64 {
@@ -678,7 +701,7 @@ pub unsafe extern "C" fn sendmsg(fd: c_int, msg: *const msghdr, flags: c_int) ->
     if !is_err(r) {
         with_state(|s| s.max_sent_packet = s.max_sent_packet.max(total));
     }
-    trace_push("sendmsg", fd, total as i64, r as i64, att, tag);
+    trace_push2("sendmsg", fd, total as i64, r as i64, att, tag, iov_tag2(msg));
     cvt(r)
 }
 
@@ -801,7 +824,8 @@ pub unsafe extern "C" fn recvmsg(fd: c_int, msg: *mut msghdr, flags: c_int) -> s
     } else {
         0
     };
-    trace_push("recvmsg", fd, cap as i64, r as i64, att, tag);
+    let tag2 = if r >= 24 && (*msg).msg_iovlen >= 2 { iov_tag2(msg) } else { 0 };
+    trace_push2("recvmsg", fd, cap as i64, r as i64, att, tag, tag2);
     cvt(r)
 }
 
